@@ -140,11 +140,12 @@ EOL = re.compile(rb"[\r\n]")
 SPC = re.compile(rb"\s")
 NONSPC = re.compile(rb"\S")
 HEX = re.compile(rb"[0-9a-fA-F]")
-END_LITERAL = re.compile(rb"[#/%\[\]()<>{}\s]")
-END_HEX_STRING = re.compile(rb"[^\s0-9a-fA-F]")
+END_LITERAL = re.compile(rb"[#/%\[\]()<>{}\s\x00]")
+END_HEX_STRING = re.compile(rb"[^\s\x000-9a-fA-F]")
+HEX_SPC = re.compile(rb"[\s\x00]")
 HEX_PAIR = re.compile(rb"[0-9a-fA-F]{2}|.")
 END_NUMBER = re.compile(rb"[^0-9]")
-END_KEYWORD = re.compile(rb"[#/%\[\]()<>{}\s]")
+END_KEYWORD = re.compile(rb"[#/%\[\]()<>{}\s\x00]")
 END_STRING = re.compile(rb"[()\134]")
 OCT_STRING = re.compile(rb"[0-7]")
 ESC_STRING = {
@@ -506,7 +507,7 @@ class PSBaseParser:
         self._curtoken += s[i:j]
         token = HEX_PAIR.sub(
             lambda m: bytes((int(m.group(0), 16),)),
-            SPC.sub(b"", self._curtoken),
+            HEX_SPC.sub(b"", self._curtoken),
         )
         self._add_token(token)
         self._parse1 = self._parse_main
